@@ -130,6 +130,13 @@ def check(ctx):
     def and_ok(ctx, p, aps):
         return match(p.ret, Agg("Result::Ok", Agg("tuple", ok_of(aps[0]), ok_of(aps[1]))))
     check_two_stage(ctx, f, "R14.2", "And", [("f", lambda prev: Call("Clone::clone", Through(Param(2)), nargs=1), "First", ()), ("g", lambda prev: Param(2), "Second", ())], and_ok)
+    # every Operator impl of Map must be one of the three classified shapes (fail closed on a new one)
+    known_inputs = {"[Input; 2]", "(Input, Input)", "std::vec::Vec<Input>"}
+    for im in F.impls:
+        if im.get("trait") == "ec_core::operator::Operator" and im["self"].get("path") == "ec_core::operator::composable::map::Map":
+            inp = (im.get("targs") or [{}])[0].get("s")
+            ctx.check(inp in known_inputs, "R14.3", "Map<%s>/impl-is-classified" % inp, "input type %s" % inp, im["span"]["at"],
+                      bad_detail="Map has an Operator impl for input type %s that the rules do not classify (known: %s): its ordering / early-exit behaviour is not established - e.g. array::map cannot stop at the first failure" % (inp, sorted(known_inputs)))
     # ---------------- Map (array, tuple) -----------------------------------------
     for ty, elem, okagg in (("[Input; 2]", lambda i: ("index", ("param", 2), ("const", "usize", str(i), i)), "array"),
                             ("(Input, Input)", lambda i: ("field", ("param", 2), i, None), "tuple")):
